@@ -18,6 +18,13 @@ class Registry:
         self.contracts[inst.name] = inst
         return cls
 
+    def inline(self, qname):
+        """a small repo function that is executed in place at its call sites (verified as part of each caller)"""
+        from .engine import Contract
+        c = type("Inline_" + qname.replace(".", "_"), (Contract,), {"name": qname, "inline": True})()
+        self.contracts[qname] = c
+        return c
+
     def spec(self, qname, doc=None):
         def deco(fn):
             self.specs[qname] = fn
